@@ -27,6 +27,12 @@ def load_findings():
         return json.load(fh).get("findings", [])
 
 
+def _freeze(x):
+    if isinstance(x, list):
+        return tuple(_freeze(y) for y in x)
+    return x
+
+
 def merge(parts):
     agg = {
         "evals": 0,
@@ -43,9 +49,7 @@ def merge(parts):
         for k, v in p["counters"].items():
             agg["counters"][k] = agg["counters"].get(k, 0) + v
         for k, v in p["sets"].items():
-            agg["sets"].setdefault(k, set()).update(
-                tuple(x) if isinstance(x, list) else x for x in v
-            )
+            agg["sets"].setdefault(k, set()).update(_freeze(x) for x in v)
         for v in p["violations"]:
             for w in agg["violations"]:
                 if w["sig"] == v["sig"]:
